@@ -128,47 +128,32 @@ func runRules(c *runner.Ctx, idx *int) {
 	}
 }
 
-// step is one direct call of the pipeline.
-type step struct {
-	name    string
-	in, out string
-	changed bool
-	err     error
+// pipeline computes, from direct calls only, the values a list produces:
+// v(i+1) = f_i(v_i); an error keeps v_i (that is what the engine does).
+func pipeline(list []string, in string) (truth []string) {
+	eff := effective(list)
+	truth = []string{in}
+	v := in
+	for _, t := range eff {
+		// the calls get private copies: the oracle's own values must not depend
+		// on a transformation that writes into its argument
+		if out, _, err := mustGet(t)(heapString([]byte(v))); err == nil {
+			v = strings.Clone(out)
+		}
+		truth = append(truth, v)
+	}
+	return truth
 }
 
-// pipeline computes, from direct calls only, the values a list produces.
-// truth: v(i+1) = f_i(v_i), an error keeps v_i.  model: the same under the
-// engine's rule "a value is taken over only when the transformation reports a change".
-func pipeline(list []string, in string) (truth []string, model []string, liar *step) {
+// effective is the list after the last t:none (which clears what precedes it).
+func effective(list []string) []string {
 	eff := list
 	for i, t := range list {
 		if t == "none" {
 			eff = list[i+1:]
 		}
 	}
-	truth = []string{in}
-	model = []string{in}
-	v, mv := in, in
-	for _, t := range eff {
-		// the calls get private copies: the oracle's own values must not depend
-		// on a transformation that writes into its argument
-		f := mustGet(t)
-		if out, _, err := f(heapString([]byte(v))); err == nil {
-			v = strings.Clone(out)
-		}
-		truth = append(truth, v)
-		out, ch, err := f(heapString([]byte(mv)))
-		out = strings.Clone(out)
-		if err == nil {
-			if ch {
-				mv = out
-				model = append(model, mv)
-			} else if out != mv && liar == nil {
-				liar = &step{name: t, in: mv, out: out, changed: ch}
-			}
-		}
-	}
-	return truth, model, liar
+	return eff
 }
 
 // mutator looks for a transformation that writes into its argument when given
@@ -274,7 +259,7 @@ func evalRules(s sink, rc *runner.Ctx, w coraza.WAF, group [][]string, master []
 		return
 	}
 	for j, list := range group {
-		truth, model, liar := pipeline(list, in)
+		truth := pipeline(list, in)
 		final := truth[len(truth)-1]
 		if rc != nil {
 			rc.Count("evaluations", 2)
@@ -303,20 +288,27 @@ func evalRules(s sink, rc *runner.Ctx, w coraza.WAF, group [][]string, master []
 			switch t := mutator(list, truth); {
 			case t != "":
 				s.Violation(t+":input-modified", what+"; cause: "+t+" writes into the string it is given", ruleScenario(list, true, master))
-			case liar != nil && sameSet(gs, set(model)):
-				s.Violation(liar.name+":"+flagSignature(liar.in, liar.out),
-					what+fmt.Sprintf("; cause: %s reports changed=false for %s although it returns %s", liar.name, q(liar.in), q(liar.out)), ruleScenario(list, true, master))
+			case !gs[in]:
+				s.Violation("multiMatch:original-missed", what, ruleScenario(list, true, master))
 			default:
+				// first value of the pipeline the operator did not get
 				sig := "multiMatch:unexpected-value"
+				eff := effective(list)
 				for i := 1; i < len(truth); i++ {
-					if !gs[truth[i]] {
-						eff := list[len(list)-(len(truth)-1):]
-						sig = "multiMatch:intermediate-missed-after:" + eff[i-1]
-						break
+					if gs[truth[i]] {
+						continue
 					}
-				}
-				if !gs[in] {
-					sig = "multiMatch:original-missed"
+					prev, name := truth[i-1], eff[i-1]
+					if out, ch, err := mustGet(name)(heapString([]byte(prev))); err == nil && !ch && out != prev {
+						// the transformation itself said "unchanged": same root cause as in part A
+						sig = name + ":" + flagSignature(prev, out)
+						what += fmt.Sprintf("; cause: %s reports changed=false for %s although it returns %s", name, q(prev), q(out))
+					} else if truth[i] == "" {
+						sig = "multiMatch:intermediate-missed:empty-value"
+					} else {
+						sig = "multiMatch:intermediate-missed:" + lenRel(prev, truth[i])
+					}
+					break
 				}
 				s.Violation(sig, what, ruleScenario(list, true, master))
 			}
